@@ -8,7 +8,8 @@ R19.1  table option -> Settings field; the table is re-verified against the comm
        parser on every run (the branch for the option literal must write that field,
        directly, through the callees of the branch, or through a local that is later
        stored into it); obligation: the field is read in calculateHash's call closure.
-R19.2  -I is covered because every loaded header's tokens are hashed
+R19.2  -I is covered: every loaded header's tokens are hashed, and the include paths themselves are part of the key
+       (__has_include probes headers that are never loaded)
        (Preprocessor::mFileCache read in the closure).
 """
 from .common.facts import walk, children, AnalysisBroken
@@ -51,6 +52,7 @@ def option_branches(body, lits):
 
 def run(ctx):
     F = ctx.facts
+    r19_5(ctx)
     ctx.rule('R19.1', 'every option named by the property writes a carrier field in CmdLineParser::parseFromArgs '
                       '(table verified against the parser) and that field is read in the call closure of '
                       'CppCheck::calculateHash')
@@ -181,7 +183,8 @@ def run(ctx):
 
     for fld, key, what in [('Preprocessor::mFileCache', 'headers', '-I / header contents: tokens of every loaded header'),
                            ('Preprocessor::mTokens', 'tokens', 'the file\'s own tokens'),
-                           ('Suppressions::nomsg', 'suppressions', 'suppressions (--suppress, files, inline)')]:
+                           ('Suppressions::nomsg', 'suppressions', 'suppressions (--suppress, files, inline)'),
+                           ('Settings::includePaths', 'include-paths', '-I itself: __has_include probes headers that are never loaded, so the loaded tokens do not cover it')]:
         ok = fld in reads
         ctx.ob('R19.2', 'input:%s' % key, ok,
                ('%s: %s is read by the key' if ok else '%s: %s is NOT read by the cache key closure') % (what, fld),
@@ -259,3 +262,36 @@ def run(ctx):
                    '%s:%s' % (calc['file'], x['l']))
         seen_m[lit] = x
     ctx.counts['flag tests in calculateHash'] = nflags
+
+
+def r19_5(ctx):
+    """R19.5  the suppression part of the key: SuppressionList::dump(out, filePath), which CppCheck::calculateHash uses to fold the active
+    suppressions into a file's key, may leave a suppression out only if it is an inline suppression: the file name of every other suppression is
+    a pattern (glob, relative tail, directory) matched with PathMatch, so no comparison of names can show that it does not apply to the file."""
+    from .common.facts import walk, walk_parents, strip
+    from .C23 import conjuncts
+    F = ctx.facts
+    ctx.rule('R19.5', 'the suppression dump used for the key omits only inline suppressions of other files')
+    cands = [f for f in F.find('SuppressionList::dump') if len(f.get('params') or []) == 2]
+    if len(cands) != 1:
+        raise AnalysisBroken('SuppressionList::dump(std::ostream&, const std::string&): %d candidates' % len(cands))
+    d = cands[0]
+    body = F.body(d)['body']
+    skips = []
+    for x, parents in walk_parents(body):
+        if x.get('k') in ('ContinueStmt', 'BreakStmt', 'ReturnStmt'):
+            guards = [p for p in parents if p.get('k') == 'IfStmt']
+            skips.append((x, guards))
+    n = 0
+    for x, guards in skips:
+        n += 1
+        cj = []
+        for g in guards:
+            cj += conjuncts(g.get('cond'))
+        inline = any(c is not None and c.get('k') == 'MemberExpr' and c.get('n') == 'SuppressionList::Suppression::isInline' for c in [strip(c_) for c_ in cj])
+        ctx.ob('R19.5', 'dump-skip#%d' % (n - 1), inline,
+               ('the skip at line %s applies to inline suppressions only' % x['l']) if inline else
+               ('SuppressionList::dump leaves suppressions out of the key at line %s under a condition that does not require isInline: a command-line / file suppression '
+                'whose pattern matches the analysed file through PathMatch (other spelling, directory, glob) no longer changes the key, so removing it replays the '
+                'cached unmatchedSuppression' % x['l']), '%s:%s' % (d['file'], x['l']))
+    ctx.floor('R19.5 skip statements in SuppressionList::dump', n, 1)
